@@ -304,6 +304,49 @@ def tr_optimize_shapes(repo: str) -> tuple[list[str], list[str], list[str]]:
     return run, seq, pool
 
 
+def tr_ask_shape(repo: str) -> list[str]:
+    """Tail of `Study.ask` (optuna/study/study.py) that the model's `runPlan` hard-wires: the trial is
+    popped/created, then `Trial(...)` (sampler.before_trial, relative search space / sample) and the fixed
+    suggests run inside a `try` whose handler fails the trial and re-raises."""
+    tree = ast.parse(open(os.path.join(repo, "optuna", "study", "study.py")).read())
+    cls = [n for n in tree.body if isinstance(n, ast.ClassDef) and n.name == "Study"]
+    if len(cls) != 1:
+        raise Untranslatable("class Study not found")
+    fn = [n for n in cls[0].body if isinstance(n, ast.FunctionDef) and n.name == "ask"]
+    if len(fn) != 1:
+        raise Untranslatable("Study.ask not found")
+    out: list[str] = []
+    seen_id = False
+    for x in fn[0].body:
+        t = " ".join(_src(x).split())
+        if "trial_id" not in t and not seen_id:
+            continue  # argument normalisation, cache reset, heartbeat warning: no trial exists yet
+        seen_id = True
+        if isinstance(x, ast.Assign) and t.startswith("trial_id = self._pop_waiting_trial_id()"):
+            out.append("pop")
+        elif isinstance(x, ast.If) and _src(x.test) == "trial_id is None":
+            out.append("create:" + ";".join(" ".join(_src(y).split()) for y in x.body))
+        elif isinstance(x, ast.Try):
+            body = ";".join(" ".join(_src(y).split()) for y in x.body)
+            out.append("try[%s]else=%d,finally=%d" % (body, len(x.orelse), len(x.finalbody)))
+            for h in x.handlers:
+                hb = []
+                for y in h.body:
+                    if isinstance(y, ast.Try):
+                        hb.append("try[%s]except[%s]" % (";".join(" ".join(_src(z).split()) for z in y.body),
+                                                          ";".join("%s:%s" % (_src(hh.type) if hh.type else "*", ";".join(_src(z) for z in hh.body)) for hh in y.handlers)))
+                    else:
+                        hb.append(" ".join(_src(y).split()))
+                out.append("except:%s:%s" % (_src(h.type) if h.type else "*", ";".join(hb)))
+        elif isinstance(x, ast.Return):
+            out.append("return:" + _src(x.value) if x.value else "return")
+        else:
+            out.append("stmt:" + t[:160])
+    if not seen_id:
+        raise Untranslatable("Study.ask: no trial_id statement")
+    return out
+
+
 def q(l: list[str]) -> str:
     return "[" + ", ".join('"%s"' % x.replace("\\", "\\\\").replace('"', '\\"') for x in l) + "]"
 
@@ -316,6 +359,7 @@ def generate(repo: str) -> str:
     nb = tr_none_branch(tree)
     shape = tr_post_shape(tree)
     run_shape, seq_shape, pool_shape = tr_optimize_shapes(repo)
+    ask_shape = tr_ask_shape(repo)
     return f"""import OptunaVerif.Model.Tell
 /-! GENERATED by verif/translators/tell_gen.py from optuna/study/_tell.py and _optimize.py — do not edit.
 Props/C02.lean proves that these definitions coincide with the hand-written model. -/
@@ -354,6 +398,9 @@ def runTrialShape : List String := {q(run_shape)}
 def seqLoopShape : List String := {q(seq_shape)}
 def poolShape : List String := {q(pool_shape)}
 
+/-! tail of `Study.ask` (optuna/study/study.py): what happens once the trial exists -/
+def askShape : List String := {q(ask_shape)}
+
 end OptunaVerif.TellGen
 """
 
@@ -371,7 +418,8 @@ def regenerate(chk: core.Check) -> None:
     chk.translated += ["optuna/study/_tell.py::_check_state_and_values -> TellGen.checkStateAndValues",
                        "optuna/study/_tell.py::_check_values_are_feasible (except tuple, check order) -> TellGen.castCaught/elemChecks/afterLoop",
                        "optuna/study/_tell.py::_tell_with_warning (`state is None` decision, try/finally shape) -> TellGen.noneBranch/postShape",
-                       "optuna/study/_optimize.py::_run_trial/_optimize_sequential/_optimize (except clauses, final raise test, loop statement order, f.result() sites) -> TellGen.runTrialShape/seqLoopShape/poolShape"]
+                       "optuna/study/_optimize.py::_run_trial/_optimize_sequential/_optimize (except clauses, final raise test, loop statement order, f.result() sites) -> TellGen.runTrialShape/seqLoopShape/poolShape",
+                       "optuna/study/study.py::Study.ask (what runs after the trial exists, and the handler that fails it) -> TellGen.askShape"]
 
 
 if __name__ == "__main__":
